@@ -162,6 +162,7 @@ func runHelpers(res *core.CaseResult, c core.CaseDesc) {
 	runWaits(res, check)
 	runAsync(res, check)
 	runAskBusy(res, r, check)
+	runSyncBusy(res, r, check)
 	// disposed machine: the blocking helpers must still return
 	md, _ := helperMach()
 	md.Dispose()
@@ -278,6 +279,113 @@ func runAskBusy(res *core.CaseResult, r *rand.Rand, check func(string, bool, str
 		}
 		if !add && slices.Contains(sub, "X") {
 			check(name+"/veto", cant, "%s(%v) asked behind a held queue answered possible although XExit vetoes (the mutation itself returned %s)", kind, sub, rec.ResStr(rs))
+		}
+		m.Dispose()
+	}
+}
+
+// runSyncBusy: AddSync / RemoveSync (and the single-state forms) called while
+// a handler holds the queue, so that the mutation is queued and the helper has
+// to wait for it and look at what happened; with a live and with a nil context
+// ("nil or live context" are both allowed by the signature). And CanRemove1
+// with args a negotiation handler decides by.
+func runSyncBusy(res *core.CaseResult, r *rand.Rand, check func(string, bool, string, ...any)) {
+	for trial := 0; trial < 8; trial++ {
+		m := am.New(context.Background(), am.Schema{"A": {}, "V": {}, "X": {}, "G": {}, "H": {}},
+			&am.Opts{Id: "c20s", DontLogId: true, DontLogStackTrace: true, HandlerTimeout: 30 * time.Second})
+		entered := make(chan struct{})
+		gate := make(chan struct{})
+		_, _ = m.HandlersBindMaps(map[string]am.HandlerNegotiation{
+			"VEnter": func(e *am.Event) bool { return false },
+			"XExit":  func(e *am.Event) bool { return false },
+			// G leaves only when asked with force
+			"GExit": func(e *am.Event) bool { return e.Args["force"] == true },
+		}, map[string]am.HandlerFinal{
+			"HState": func(e *am.Event) {
+				close(entered)
+				select {
+				case <-gate:
+				case <-time.After(20 * time.Second):
+				}
+			},
+		})
+		m.Add(am.S{"X", "G"}, nil)
+		// idle: the single-state check passes its args on
+		if trial == 0 {
+			check("CanRemove1/args", m.CanRemove1("G", am.A{"force": true}) != am.Canceled, "CanRemove1(G, {force:true}) is Canceled although GExit accepts a forced removal (Remove1 with the same args returns %s)",
+				rec.ResStr(m.Remove1("G", am.A{"force": true})))
+			m.Add1("G", nil)
+			check("CanRemove1/no-args", m.CanRemove1("G", nil) == am.Canceled, "CanRemove1(G, nil) is not Canceled although GExit rejects an unforced removal")
+		}
+		go m.Add1("H", nil)
+		select {
+		case <-entered:
+		case <-time.After(10 * time.Second):
+			res.Inconclusive = "the holding handler was not entered"
+			close(gate)
+			m.Dispose()
+			return
+		}
+		kind := []string{"AddSync", "RemoveSync", "Add1Sync", "Remove1Sync"}[trial%4]
+		nilCtx := trial >= 4
+		var ctx context.Context
+		if !nilCtx {
+			ctx = context.Background()
+		}
+		st := []string{"A", "V", "X", "A"}[r.IntN(4)]
+		if strings.HasPrefix(kind, "Remove") {
+			st = []string{"X", "A", "X"}[r.IntN(3)]
+			if st == "A" {
+				// make it removable
+				st = "G"
+			}
+		}
+		var got bool
+		var pan any
+		done := make(chan struct{})
+		go func() {
+			defer close(done)
+			defer func() { pan = recover() }()
+			switch kind {
+			case "AddSync":
+				got = amhelp.AddSync(ctx, m, am.S{st})
+			case "Add1Sync":
+				got = amhelp.Add1Sync(ctx, m, st)
+			case "RemoveSync":
+				got = amhelp.RemoveSync(ctx, m, am.S{st}, am.A{"force": true})
+			case "Remove1Sync":
+				got = amhelp.Remove1Sync(ctx, m, st, am.A{"force": true})
+			}
+		}()
+		for i := 0; i < 2000 && m.QueueLen() == 0; i++ {
+			select {
+			case <-done:
+				i = 2000
+			case <-time.After(time.Millisecond):
+			}
+		}
+		close(gate)
+		name := kind + "/busy-queue"
+		if nilCtx {
+			name += "/nil-ctx"
+		}
+		select {
+		case <-done:
+		case <-time.After(15 * time.Second):
+			res.Violate("C20/blocked/"+name, name+" did not return within 15s after the handler was released", nil)
+			m.Dispose()
+			return
+		}
+		if pan != nil {
+			res.Evals++
+			res.Violate("C20/panic/"+name, fmt.Sprintf("%s(%s) queued behind a running handler panicked: %v", kind, st, pan), nil)
+			m.Dispose()
+			continue
+		}
+		if strings.HasPrefix(kind, "Add") {
+			check(name, got == m.Is1(st), "%s(%s) queued behind a running handler returned %v but Is1 = %v", kind, st, got, m.Is1(st))
+		} else {
+			check(name, got == m.Not1(st), "%s(%s) queued behind a running handler returned %v but Not1 = %v", kind, st, got, m.Not1(st))
 		}
 		m.Dispose()
 	}
